@@ -25,8 +25,11 @@ import (
 type C07Scenario struct {
 	Client ClientCfg       `json:"client"`
 	Server refsmtpd.Config `json:"server"`
-	Label  string          `json:"label"`
-	Sched  uint64          `json:"sched"`
+	// Second, if set, is how the peer behaves on the second connection: after the first
+	// DialAndSend a second one is made on the same Client.
+	Second *refsmtpd.Config `json:"second,omitempty"`
+	Label  string           `json:"label"`
+	Sched  uint64           `json:"sched"`
 }
 
 type c07 struct{ cache map[string][]C07Scenario }
@@ -47,9 +50,11 @@ func (p *c07) build(seed uint64, tier string) []C07Scenario {
 	r := sim.NewRand(sim.Derive(seed, 7))
 	var out []C07Scenario
 	authLists := [][]string{allMechs, {"PLAIN", "LOGIN"}, {"LOGIN", "PLAIN", "XOAUTH2", "CRAM-MD5"}, {"SCRAM-SHA-256-PLUS", "SCRAM-SHA-1-PLUS", "PLAIN"}, {}}
-	hosts := []string{"mx.sim.example", "localhost", "127.0.0.1"}
+	// "localhost names" are exactly localhost, 127.0.0.1 and ::1; names that merely look like
+	// them are ordinary remote hosts
+	hosts := []string{"mx.sim.example", "localhost", "127.0.0.1", "localhost.attacker.example", "127.0.0.1.attacker.example"}
 	if tier == "thorough" {
-		hosts = append(hosts, "::1")
+		hosts = append(hosts, "::1", "localhost-relay.example", "localhostx")
 	}
 	type srvB struct {
 		label     string
@@ -123,6 +128,48 @@ func (p *c07) build(seed uint64, tier string) []C07Scenario {
 			}
 		}
 	}
+	// histories of two dials on one Client: the first peer offers TLS and every mechanism, the
+	// second behaves differently (state carried over from the first dial must not weaken the
+	// second)
+	seconds := []struct {
+		label string
+		cfg   func(user, pass string) refsmtpd.Config
+	}{
+		{"then-no-starttls-plain-login", func(u, pw string) refsmtpd.Config {
+			return refsmtpd.Config{Caps: []string{"8BITMIME", authCaps("PLAIN", "LOGIN")}, Auth: refsmtpd.AuthCfg{User: u, Pass: pw, Salt: []byte("c07salt"), Iter: 4}}
+		}},
+		{"then-no-starttls-all-mechs", func(u, pw string) refsmtpd.Config {
+			return refsmtpd.Config{Caps: []string{"8BITMIME", authCaps(allMechs...)}, Auth: refsmtpd.AuthCfg{User: u, Pass: pw, Salt: []byte("c07salt"), Iter: 4}}
+		}},
+		{"then-cert-wrongname", func(u, pw string) refsmtpd.Config {
+			return refsmtpd.Config{Caps: []string{"8BITMIME", "STARTTLS", authCaps(allMechs...)}, TLS: refsmtpd.TLSCfg{Cert: "wrongname"}, Auth: refsmtpd.AuthCfg{User: u, Pass: pw, Salt: []byte("c07salt"), Iter: 4}}
+		}},
+		{"then-starttls-refused", func(u, pw string) refsmtpd.Config {
+			return refsmtpd.Config{Caps: []string{"8BITMIME", "STARTTLS", authCaps("PLAIN", "LOGIN")}, TLS: refsmtpd.TLSCfg{Cert: "valid"},
+				Rules: []refsmtpd.Rule{{Verb: "STARTTLS", Nth: 1, Action: refsmtpd.Action{Code: 454, Text: "TLS not available"}}}, Auth: refsmtpd.AuthCfg{User: u, Pass: pw, Salt: []byte("c07salt"), Iter: 4}}
+		}},
+	}
+	for _, pol := range []string{"mandatory", "opportunistic", "none"} {
+		for _, auth := range c07AuthTypes {
+			for _, host := range hosts {
+				for si, sd := range seconds {
+					idx++
+					// what the first peer offers decides what a discovery would settle on
+					firstOffer := [][]string{allMechs, {"PLAIN", "LOGIN"}, {"LOGIN"}, {"CRAM-MD5", "PLAIN"}}[(idx+si)%4]
+					user := fmt.Sprintf("u%dX%x", idx, r.Uint64()&0xffffff)
+					pass := fmt.Sprintf("Pw%dZ%016xq", idx, r.Uint64())
+					sc := C07Scenario{Label: fmt.Sprintf("%s|%s|%s|tls-ok,%s|auth-offer=%d|tls1.3", pol, auth, host, sd.label, len(firstOffer)),
+						Client: ClientCfg{Host: host, TLSPolicy: pol, AuthType: auth, User: user, Pass: pass, TimeoutMs: 3000},
+						Server: refsmtpd.Config{Caps: []string{"8BITMIME", "STARTTLS", authCaps(firstOffer...)}, TLS: refsmtpd.TLSCfg{Cert: "valid", Version: "1.3"},
+							Auth: refsmtpd.AuthCfg{User: user, Pass: pass, Salt: []byte("c07salt"), Iter: 4}},
+						Sched: sim.Derive(seed, 7, uint64(idx))}
+					second := sd.cfg(user, pass)
+					sc.Second = &second
+					out = append(out, sc)
+				}
+			}
+		}
+	}
 	p.cache[key] = out
 	return out
 }
@@ -160,12 +207,19 @@ func (p *c07) Exec(t *testing.T, scAny any) Outcome {
 	var out Outcome
 	send := &SendScenario{Client: sc.Client, Server: sc.Server, Op: "dialandsend", Sched: sc.Sched,
 		Batches: [][]MsgSpec{{SimpleMsg("c07")}}}
-	var run *SendRun
-	if sc.Client.TLSPolicy == "implicit" {
-		run = execSendImplicit(t, send)
-	} else {
-		run = ExecSend(t, send, nil)
+	hook := func(e *NetEnv) {
+		if sc.Client.TLSPolicy == "implicit" {
+			e.ImplicitTLS = true
+		}
+		if sc.Second != nil {
+			e.Later = []*refsmtpd.Server{refsmtpd.New(e.K, *sc.Second, TLSMat)}
+		}
 	}
+	if sc.Second != nil {
+		send.Op = "dialandsend2"
+		send.Batches = append(send.Batches, []MsgSpec{SimpleMsg("c07b")})
+	}
+	run := execSendWith(t, send, hook)
 	run.fill(&out)
 	if out.Infra != "" {
 		return out
@@ -182,11 +236,27 @@ func (p *c07) Exec(t *testing.T, scAny any) Outcome {
 			out.violate("C07:panic", "%s panicked: %v\n%s", c.Name, c.Panic, c.PanicStack)
 		}
 	}
-	pipe := run.Env.Pipes[0]
+	for i, pipe := range run.Env.Pipes {
+		srv := run.Env.ServerOf(pipe.ID)
+		which := "first"
+		if i > 0 {
+			which = "second"
+			out.stat("probe.second-connection-judged", 1)
+		}
+		p.judgeConn(&out, sc, pipe, srv, which)
+	}
+	return out
+}
+
+// judgeConn applies the four clauses to one connection.
+func (p *c07) judgeConn(out *Outcome, sc *C07Scenario, pipe *sim.Pipe, srv *refsmtpd.Server, which string) {
 	c2s := pipe.C2S()
-	h := run.Env.Srv.H
+	h := srv.H
 	pol := sc.Client.TLSPolicy
 	site := pol + ":" + strings.Split(sc.Label, "|")[3]
+	if which == "second" {
+		site += ":second-dial"
+	}
 	// where does TLS start in the client's byte stream?
 	clearEnd := len(c2s)
 	tlsStarted := false
@@ -195,7 +265,7 @@ func (p *c07) Exec(t *testing.T, scAny any) Outcome {
 		tlsStarted = true
 	} else {
 		for _, e := range h.Events {
-			if e.Kind == "reply" && e.Verb == "STARTTLS" && e.Code == 220 && e.Action == "reply" && !e.TLS {
+			if e.Kind == "reply" && e.Verb == "STARTTLS" && e.Code == 220 && e.Action == "reply" && !e.TLS && e.Conn == pipe.ID {
 				if i := bytes.Index(bytes.ToUpper(c2s), []byte("STARTTLS\r\n")); i >= 0 {
 					clearEnd = i + len("STARTTLS\r\n")
 					tlsStarted = true
@@ -232,21 +302,28 @@ func (p *c07) Exec(t *testing.T, scAny any) Outcome {
 	if pol == "mandatory" {
 		for _, v := range clearCmds {
 			if v != "EHLO" && v != "HELO" && v != "STARTTLS" && v != "QUIT" {
-				out.violate("C07:mandatory-tls-cleartext-command:"+v, "mandatory TLS: the client sent %q in clear (cleartext dialogue: %q); server behaviour %s", v, clipStr(string(clear), 300), sc.Label)
+				out.violate("C07:mandatory-tls-cleartext-command:"+v, "mandatory TLS: the client sent %q in clear on its %s connection (cleartext dialogue: %q); server behaviour %s", v, which, clipStr(string(clear), 300), sc.Label)
 			}
 		}
 	}
 	// (ii) nothing inside TLS when the certificate is not valid for the host
-	cert := sc.Server.TLS.Cert
-	if cert == "wrongname" || cert == "untrusted" || cert == "garbage" || cert == "stall" {
+	cert := srv.Cfg.TLS.Cert
+	hostCovered := false
+	for _, n := range append(append([]string(nil), refsmtpd.ServerNames...), "127.0.0.1", "::1") {
+		if n == sc.Client.host() {
+			hostCovered = true
+		}
+	}
+	badCert := cert == "wrongname" || cert == "untrusted" || cert == "garbage" || cert == "stall" || (cert == "valid" && !hostCovered)
+	if badCert {
 		for _, e := range h.Events {
-			if e.Kind == "cmd" && e.TLS {
-				out.violate("C07:command-inside-unverified-tls:"+cert, "the server presented a certificate that is %s for host %s, yet the client sent %q inside that TLS session", cert, sc.Client.host(), e.Line)
+			if e.Kind == "cmd" && e.TLS && e.Conn == pipe.ID {
+				out.violate("C07:command-inside-unverified-tls:"+cert, "the server presented a certificate that is not valid for host %s (%s), yet the client sent %q inside that TLS session", sc.Client.host(), cert, e.Line)
 				break
 			}
 		}
 		if tlsStarted {
-			out.stat("fault.fired.tls_"+cert, 1)
+			out.stat("fault.fired.tls_cert_not_valid_for_host", 1)
 		}
 	}
 	// (iii) the password never in clear
@@ -259,7 +336,7 @@ func (p *c07) Exec(t *testing.T, scAny any) Outcome {
 			"plain-triple": base64.StdEncoding.EncodeToString([]byte("\x00" + sc.Client.User + "\x00" + pw)),
 		}
 		for name, f := range forms {
-			if bytes.Contains(clear, []byte(f)) || (!tlsStarted && false) {
+			if bytes.Contains(clear, []byte(f)) {
 				mech := authMechClear
 				if mech == "" {
 					mech = "none"
@@ -270,14 +347,14 @@ func (p *c07) Exec(t *testing.T, scAny any) Outcome {
 				case mech == "XOAUTH2":
 					out.stat("probe.xoauth2-token-in-clear-not-judged", 1)
 				default:
-					out.violate("C07:password-in-clear:"+mech+":"+pol, "the password (%s form) of auth type %s went over the wire in clear with mechanism %s, policy %s, host %s (server behaviour %s)", name, auth, mech, pol, sc.Client.host(), sc.Label)
+					out.violate("C07:password-in-clear:"+mech+":"+pol, "the password (%s form) of auth type %s went over the wire in clear with mechanism %s, policy %s, host %s, %s connection (server behaviour %s)", name, auth, mech, pol, sc.Client.host(), which, sc.Label)
 				}
 			}
 		}
 	}
 	// (iv) discovery on an unencrypted connection
 	if auth == "AUTODISCOVER" && (authMechClear == "PLAIN" || authMechClear == "LOGIN") {
-		out.violate("C07:autodiscover-chose-"+authMechClear+"-unencrypted", "auto-discovery selected %s on an unencrypted connection (policy %s, server offered %v)", authMechClear, pol, sc.Server.Caps)
+		out.violate("C07:autodiscover-chose-"+authMechClear+"-unencrypted", "auto-discovery selected %s on an unencrypted connection (policy %s, %s connection, server offered %v)", authMechClear, pol, which, srv.Cfg.Caps)
 	}
 	if authMechClear != "" {
 		out.stat("probe.auth-in-clear."+authMechClear, 1)
@@ -290,14 +367,6 @@ func (p *c07) Exec(t *testing.T, scAny any) Outcome {
 	if len(h.Commits) > 0 {
 		out.stat("probe.message-delivered", 1)
 	}
-	return out
-}
-
-// execSendImplicit runs the scenario with a dial function that speaks TLS from the first byte.
-func execSendImplicit(t *testing.T, sc *SendScenario) *SendRun {
-	sc2 := *sc
-	sc2.Client.TLSPolicy = "implicit"
-	return execSendWith(t, &sc2, func(e *NetEnv) { e.ImplicitTLS = true })
 }
 
 func (p *c07) Shrink(scAny any) []any { return nil }
